@@ -172,6 +172,9 @@ func readContractLines(path string) ([]rawClause, error) {
 			first = m[1]
 			body = m[1] + " " + strings.TrimSpace(body[len(m[0]):])
 		}
+		if i := strings.Index(first, "["); i > 0 && label == "" && clauseKW[first[:i]] {
+			return nil, fmt.Errorf("%s:%d: malformed clause label in %q (allowed: letters, digits, _ . : -)", path, ln, first)
+		}
 		kw := strings.TrimSuffix(first, ":")
 		if clauseKW[kw] {
 			rest := strings.TrimSpace(body[len(first):])
